@@ -64,6 +64,27 @@ CLAIMED = {
    text="For several seeds x every log level Off..Trace x fault_percentage 0/50 an in-process Server handles valid, invalid and fault-injected traffic with a capturing logger; every emitted datagram and every formatted log record is scanned for the seed, SHA-512(seed)[0..32] and the clamped private scalar in raw, hex (both cases) and base64 (standard, url-safe) forms; the scan results are facts in the trace and TLC rejects any event carrying one (Trace_Server.tla). Thorough adds stdout/stderr and datagrams of the real server binary for file and environment configuration sources.",
    note="The decisive observation is a byte scan; low-variety seeds are not searched in raw form.",
    technique="trace validation against ServerAbs.tla with leak facts from a byte scan"),
+
+ "C01": dict(level="model_checking", ref="6 C01",
+   text="Client.tla models the client's checks (unframe, Merkle, delegation window, DELE signature, SREP signature, print) against responses a network adversary can assemble component-wise (honest, replayed from earlier requests, other protocol, re-signed with own keys, junk; signatures over the attached or another payload); TLC checks Sound, NoTimeOnFailure, VerifiedOnlyWithKey, BindsEvenWithoutKey, Complete (quick 4e5, thorough 5e6+ states) and the two historical client defects are kept as violating constants (self-test). Every recipe within one substitution of the honest response and a seeded sample of farther ones is concretised on the request the REAL client process sent and served to it; single-byte forgeries in every listed byte region, replays within and across runs, truncations, extensions, mutations, re-signing and splices are recorded; TLC decides each run from the facts the independent verifier computed on the served datagram (Trace_Client.tla). Freshness: no duplicate among all observed nonces.",
+   note="Symbolic cryptography in the model (no forgery/collision); ed25519-dalek/sha2 in the interpretation; authenticity judged on the content a client extracts.",
+   technique="TLC on Client.tla; recipes replayed into the real client binary; runs validated against Trace_Client.tla"),
+ "C03": dict(level="model_checking", ref="6 C03",
+   text="Same specification as C01 (invariant Complete); the real client is run against the harness's honest reference responder (own keys, protocol-width Merkle tree) for version x key option x batch shapes (n,i) up to 64 x 9 midpoint classes from the epoch to year 9999, and against the REAL server binary through a recording relay with 1/8/64 simultaneous requests (all 64 Merkle indices observed); TLC requires exit 0, a time printed for every request, verified exactly when a key was given, and the printed time equal to the signed midpoint converted from the protocol's unit.",
+   note="Printed time is read back with -j -z -f '%s.%f'; the relay sees every datagram so the facts are computed on the real server's responses.",
+   technique="TLC on Client.tla; real client vs reference responder and real server; runs validated against Trace_Client.tla"),
+ "C15": dict(level="model_checking", ref="6 C15",
+   text="Process.tla models main, workers, the configuration mutex (poisoning), the health-check bind, the reporter and the signal handler; TLC checks FullyServing and NeverKeepsRunningDegraded under fairness for N<=3 (the plain-bind variant violates both: self-test) and Server.tla for the worker loop. The real binary is started for example.cfg, a default-worker-count configuration and a sample of the documented option space; per run the per-thread hook logs are validated against Process.tla with one cursor per thread (TLC finds the interleaving; worker lock acquisitions are numbered under the mutex), and the observations (N workers serving, bursts answered, every simultaneous TCP health connection answered while time requests are served, no panic output, alive) are decided by the trace specification.",
+   note="Schedules of the real process are sampled; exhaustive only in the model. Ports picked by binding port 0 first.",
+   technique="TLC liveness/safety on Process.tla; multi-cursor trace validation of the real binary's hook logs and observations"),
+ "C18": dict(level="model_checking", ref="6 C18",
+   text="Server.tla and Process.tla are model-checked; the real binary with 1..16 workers serves 4..64 concurrent closed-loop reference clients and bursts; every request is validated as a round of ServerAbs.tla (exactly one reply, verified under the single long-term key, own nonce and proof) by Trace_Server.tla, hook logs by Trace_Process.tla; no worker dies.",
+   note="OS scheduling and SO_REUSEPORT distribution are sampled over seeded rounds.",
+   technique="trace validation of the real multi-worker binary against ServerAbs.tla and Process.tla"),
+ "C19": dict(level="model_checking", ref="6 C19",
+   text="Process.tla: liveness Stops (signal leads to exit 0) under weak fairness of every thread and NO fairness or bound on arriving datagrams, CleanExit; the unbounded-drain variant violates Stops with the drain/Arrive lasso (self-test). The real binary is signalled (INT/TERM) at seeded delays while idle, under closed-loop load and under an open-loop flood, with 1/4(/16) workers and the reporter on/off: exit status 0 within 5 s, no panic output, hook logs consistent with Process.tla, every reply received before exit still valid.",
+   note="'a few seconds' = 5 s.",
+   technique="TLC liveness on Process.tla; signal scenarios on the real binary validated by Trace_Process.tla / Trace_Server.tla"),
 }
 PENDING_REASON = "check not built yet in this session (see DESIGN.md section 6 for the planned TLA+ treatment)"
 
